@@ -8,6 +8,8 @@ sys.setrecursionlimit(100000)
 import common, runner
 from common import Model, VERIF, EVIDENCE_DIR, CORPUS_DIR
 
+ESCALATION = 5
+
 TRUSTED_BASE = [
     "T1 Coq 8.16.1 kernel (coqc; coqchk in thorough runs); vm_compute in Examples/finite reflections; no native_compute",
     "T2 axioms: see print_assumptions in this file (verbatim Print Assumptions output of every property theorem)",
@@ -55,7 +57,16 @@ def main(argv):
         return do_replay(prop, mod, replay)
 
     slices = mod.slices()
-    budget = mod.BUDGET[tier]
+    budget = dict(mod.BUDGET[tier])
+    # changed-code escalation: if a file this property is anchored in differs from the recorded baseline,
+    # the quick run spends a larger budget (never an alarm by itself)
+    import fingerprint
+    changed = fingerprint.changed_files(prop)
+    CHANGED_FILES[:] = changed
+    if changed and tier == "quick":
+        for k, v in list(budget.items()):
+            if isinstance(v, int):
+                budget[k] = v * ESCALATION
     known = [k for k in runner.load_known() if k.get("property") == prop and k.get("status") == "open"]
     all_findings = []
     slice_reports = {}
@@ -176,6 +187,9 @@ def main(argv):
     return 1 if violations else 0
 
 
+CHANGED_FILES = []
+
+
 def write_evidence(prop, tier, seed, mod, pinfo, slices, slice_reports, violations, t0, note=None):
     EVIDENCE_DIR.mkdir(exist_ok=True)
     evals = sum(r["evals"] for r in slice_reports.values())
@@ -201,6 +215,7 @@ def write_evidence(prop, tier, seed, mod, pinfo, slices, slice_reports, violatio
         "exhaustive": all(r.get("exhaustive") for r in slice_reports.values()) if slice_reports else False,
         "disagreements_checked": evals,
         "modelled_not_verified": getattr(mod, "MODELLED", ""),
+        "anchor_files_changed_since_baseline": CHANGED_FILES,
     }
     ev = {
         "property_id": prop, "tier": tier, "seed": seed, "level": "proof",
